@@ -115,3 +115,27 @@ Print Assumptions C10_any_state_open_exact.
 
 Example C10_nonvacuous : compute_closed 5 = Ok [7#90; 16#45; 2#15; 16#45; 7#90].
 Proof. exact ex_boole. Qed.
+
+From NurbsV Require Import Spec.BSpline Proofs.Local Proofs.IntegralProofs.
+From NurbsV Require Proofs.MatProofs.
+(* ---- the rule IS the integral (Proofs/IntegralProofs.v): polynomials as coefficient lists, the exact integral `pint` through the
+   antiderivative (fundamental theorem, additivity over intervals), affine substitution by the chain rule; a rule exact on the
+   monomials below n integrates every polynomial with at most n coefficients exactly over every interval [a, b]. ---- *)
+Theorem C10_rule_is_the_integral :
+  forall (n : nat) (x w f : list Q) (a b : Q),
+       exact_monomials n x w ->
+       (length f <= n)%nat ->
+       (b - a) * MatProofs.sumn n (fun k : nat => nth k w 0 * peval f (a + (b - a) * nth k x 0)) ==
+       pint a b f.
+Proof. exact quad_exact. Qed.
+Print Assumptions C10_rule_is_the_integral.
+
+Theorem C10_polynomial_integral_fundamental :
+  forall (a b : Q) (f : poly), pint a b f == peval (pprim f) b - peval (pprim f) a.
+Proof. exact pint_pprim. Qed.
+Print Assumptions C10_polynomial_integral_fundamental.
+
+Theorem C10_integral_additive :
+  forall (a b c : Q) (f : poly), pint a b f + pint b c f == pint a c f.
+Proof. exact pint_chasles. Qed.
+Print Assumptions C10_integral_additive.
